@@ -7,6 +7,8 @@ import FpgoVerif.Proofs.C02Comp
 import FpgoVerif.Proofs.C02Str
 import FpgoVerif.Proofs.C02FF
 import FpgoVerif.Proofs.C02StrF
+import FpgoVerif.Proofs.C02PF
+import FpgoVerif.Proofs.C02Idem
 /-! Property theorems for C02 — "Maybe numeric conversions are value-preserving or fail; never silently wrap".
 
     All theorems are about `convGo` = the evaluator `conv` applied to `Gen.convTable`, the table the
@@ -226,12 +228,21 @@ theorem C02_string_to_float32 (sc : Strconv) (hc : ParseFloatContract f32 (sc.pa
   have := strFloat32_sound sc hc Gen.convTable 5 w hk.1.2
   simpa [specOK, convFuel] using this
 
--- the contract is satisfiable (reference function: round the exact rational, error when that is not finite) …
+/-- … in particular for the model the driver runs: `goStrconv.parseFloat` satisfies the contract for both bit sizes
+    (`goStrconv_parseFloat64_contract`, `goStrconv_parseFloat32_contract`: a numeral is rounded from its exact rational
+    value; `roundRat_isFin`; round-to-nearest-even is idempotent, `roundRat_idem`).  No hypothesis is left. -/
+theorem C02_string_to_float64_go (w : String) :
+    specOK .float64 (.ty .string) (.s w) (convGo .float64 (.ty .string) (.s w)) = true :=
+  C02_string_to_float64 goStrconv goStrconv_parseFloat64_contract w
+
+theorem C02_string_to_float32_go (w : String) :
+    specOK .float32 (.ty .string) (.s w) (convGo .float32 (.ty .string) (.s w)) = true :=
+  C02_string_to_float32 goStrconv goStrconv_parseFloat32_contract w
+
+-- non-vacuity of the contract hypothesis: two different functions satisfy it
 example : ParseFloatContract f64 refParseFloat64 := refParseFloat64_contract
-example (w : String) : specOK .float64 (.ty .string) (.s w)
-    (conv { goStrconv with parseFloat := fun _ => refParseFloat64 } Gen.convTable convFuel .float64 (.ty .string) (.s w)) = true :=
-  C02_string_to_float64 _ refParseFloat64_contract w
--- … and (TEST on samples, not a theorem) the function the driver runs, `goStrconv.parseFloat`, behaves like it:
+example : ParseFloatContract f32 (goStrconv.parseFloat 32) := goStrconv_parseFloat32_contract
+-- sanity samples (TEST, by evaluation): overflow, the float32 overflow threshold, ties, a non-numeral
 example : ["1e400", "3.4028235677973366e38", "0.1", "16777217", "abc", "-1.5e-3"].all (fun w =>
     specOK .float32 (.ty .string) (.s w) (convGo .float32 (.ty .string) (.s w)) &&
     specOK .float64 (.ty .string) (.s w) (convGo .float64 (.ty .string) (.s w))) = true := by decide +kernel
